@@ -270,7 +270,7 @@ pub fn run(args: &Args, log: &Log) -> Result<(), String> {
                 let mut bytes: Vec<u8> = Vec::new(); let mut sids: Vec<i64> = Vec::new();
                 let nf = r.range(2, 5);
                 for k in 0..nf {
-                    if r.chance(1, 2) { let l = *r.pick(&[0usize, 1, 5, 6, 7, 8, 30]); bytes.extend_from_slice(&frame_bytes(if r.chance(1, 2) { 0 } else { 200 }, 0, &vec![0u8; l])); }
+                    if r.chance(1, 2) { let l = *r.pick(&[0usize, 1, 5, 6, 7, 8, 30]); bytes.extend_from_slice(&frame_bytes(if r.chance(1, 2) { 0 } else { r.range(11, 255) as u8 }, *r.pick(&[0u32, 0, 1, 7, 0xffff_ffff]), &vec![0u8; l])); }
                     let sid = 1000 * (i as u32 + 1) + k as u32; sids.push(sid as i64);
                     bytes.extend_from_slice(&frame_bytes(8, sid, &[]));
                 }
